@@ -217,6 +217,33 @@ def run(ctx):
                 rep.violation({"property": "C15", "kind": "regex", "which": KEYWORDS[w], "string_hex": HX(s), "string": s.decode("utf8", "replace"),
                                "go_regexp_submatch_indices": a, "model_submatch_indices": b,
                                "what": "Go's regexp on the expression extracted from the source and the library model Regex.v disagree (the regex changed in a way the model's theorems do not cover, or the library model is wrong)"})
+    # every annotation line is read in every run: a module of 12 independent packages x 120 annotated types analysed
+    # concurrently by the stand-alone driver, several times (a reader that shares state between packages loses lines)
+    import stressgen, shutil as _sh
+    afiles, awant = stressgen.annotation_stress(12, 120)
+    ad = lib.scratch_dir()
+    aroot = os.path.join(ad, "m")
+    stressgen.write(aroot, afiles)
+    stress = []
+    for i in range(6 if ctx.tier != "thorough" else 40):
+        r = lib.run_binary(ctx, aroot, timeout=900)
+        n = len([x for x in r["diags"] if x["code"] == "IMM01"])
+        stress.append(n)
+        if n != awant or r["crashed"]:
+            found = True
+            have = {(x["file"], x["line"]) for x in r["diags"]}
+            lost = []
+            for rel, text in sorted(afiles.items()):
+                for ln, l in enumerate(text.split("\n"), 1):
+                    if l.endswith(".F = %s" % l.split("= ")[-1]) and l.startswith("\tt") and (rel, ln) not in have:
+                        lost.append([rel, ln, l.strip()])
+            rep.violation({"property": "C15", "kind": "stress", "run": i, "IMM01_reported": n, "expected": awant, "writes_not_reported_because_their_annotation_line_was_not_read": lost[:8],
+                           "crashed": r["crashed"], "stderr_tail": r["stderr"][-400:], "module": "checks/stressgen.annotation_stress(12, 120)",
+                           "files": {"a0/a.go": afiles["a0/a.go"][:1500] + "..."},
+                           "what": "a well-formed `// @immutable` doc line is not recognised in some runs (schedule-dependent: the module is analysed by concurrent passes)"})
+            break
+    _sh.rmtree(ad, ignore_errors=True)
+    rep.cov["stress_runs_IMM01_counts"] = stress
     lib.obligation_gate(rep, ctx, "C15", found)
     rep.cov["evaluations"] = len(cases) + nre
     rep.cov["distinct_nontrivial"] = len(nontrivial)
